@@ -6,6 +6,7 @@ pub mod c10;
 pub mod c05;
 pub mod c11;
 pub mod c12;
+pub mod c17;
 pub mod c20;
 
 use crate::engine::DynProperty;
@@ -20,9 +21,10 @@ pub fn by_id(id: &str) -> Option<Box<dyn DynProperty>> {
         "C10" => Box::new(c10::C10::new()),
         "C11" => Box::new(c11::C11::new()),
         "C12" => Box::new(c12::C12::new()),
+        "C17" => Box::new(c17::C17::new()),
         "C20" => Box::new(c20::C20::new()),
         _ => return None,
     })
 }
 
-pub const IDS: &[&str] = &["C01", "C03", "C04", "C05", "C06", "C10", "C11", "C12", "C20"];
+pub const IDS: &[&str] = &["C01", "C03", "C04", "C05", "C06", "C10", "C11", "C12", "C17", "C20"];
